@@ -158,8 +158,9 @@ class Recorder:
         elif kind == "splitter":
             pd = Draws(self, "draw", cfg["pd"])
             n = object.__new__(Splitter); reg(n)
+            extra = {"split_quantity": cfg["split_quantity"]} if cfg.get("split_quantity") is not None else {}   # ignored in UNPACK mode (documented)
             Splitter.__init__(n, self.env, f"N{i}", node_setup_time=t2f(cfg.get("setup", 0)), processing_delay=pd,
-                              blocking=cfg.get("blocking", True),
+                              blocking=cfg.get("blocking", True), **extra,
                               in_edge_selection=self._policy(cfg.get("inp", "FIRST_AVAILABLE")),
                               out_edge_selection=self._policy(cfg.get("out", "FIRST_AVAILABLE")))
         else:
